@@ -1327,6 +1327,10 @@ func stringToTTL(token string) (uint32, bool) {
 		default:
 			return 0, false
 		}
+		if s > math.MaxUint32 {
+			// Too large already, and the sum of many such terms could wrap around.
+			return 0, false
+		}
 	}
 	if s+i > math.MaxUint32 {
 		return 0, false
